@@ -5,7 +5,7 @@
 prop=$1; x=$2; crate=$3
 src=${SEED_SRC:-/tmp/seed_${prop}_out}
 wt=/tmp/confirm_${prop}_$x
-export CARGO_TARGET_DIR=/tmp/confirm_target
+export CARGO_TARGET_DIR=${CONFIRM_TARGET:-/tmp/confirm_target}
 git -C /repo worktree remove --force $wt >/dev/null 2>&1
 git -C /repo worktree add -q --detach $wt HEAD || exit 3
 cd $wt
